@@ -2,6 +2,7 @@
 #[allow(unexpected_cfgs)]
 mod bridge;
 mod c_addr;
+mod calib;
 mod c_bus;
 mod c_conn;
 mod c_dispatch;
@@ -25,6 +26,10 @@ use vcore::run::Run;
 fn main() {
     let args = parse_args("h_zbus");
     let id = args.id.as_str();
+    if id == "CALIB" {
+        calib::run();
+        return;
+    }
     let _ = bridge::fd_table();
     let mut run = Run::new(id, &args.tier);
     let specs: Vec<Spec> = match id {
